@@ -86,6 +86,25 @@ def missing_channel_search(chk):
                 return
 
 
+def exact_threshold_missing(chk):
+    """W^2 = 4 m^2 exactly (x = 1/2, Q2 = 4 m^2; x = 1/5, Q2 = m^2): the pair cannot be produced, so the NNLO light operator (whose
+    "missing" channel has a local term) must not know the mass: the same run with a heavier quark gives the same operator"""
+    n, bad = 0, 0
+    for kind in ("F2", "FL"):
+        for x, fac in ((0.5, 4.0), (0.2, 1.0)):
+            n += 1
+            m = 1.5
+            pt = [dict(x=x, Q2=fac * m * m)]
+            res = [runs.run(cards.theory_card(FNS="FFNS", NfFF=3, PTO=2, PTODIS=2, mc=mc), cards.obs_card({kind + "_light": pt}, prDIS="EM"))[kind + "_light"][0] for mc in (m, 1.6)]
+            w = runs.compare(res[0], res[1], None, 1.0, 1e-12)
+            if w:
+                bad += 1
+                chk.violation("threshold:exact:%s" % kind, "%s_light FFNS NNLO at x=%s, Q2=%s = %s mc^2 (W^2 = 4 mc^2 exactly): the operator depends on mc although the charm pair cannot be produced: order %s differs by %.3g"
+                              % (kind, x, pt[0]["Q2"], fac, w["key"], w["diff"]), dict(kind=kind, point=pt[0], result=w))
+    chk.patrol["exactly_at_threshold"] = dict(cases=n, failures=bad, rule="F2/FL_light FFNS NNLO exactly at W^2 = 4 mc^2 (two dyadic points): identical to the run with a heavier charm quark")
+    return bad
+
+
 def patrol(chk, n):
     bad, dist, crashed = [], {}, {}
     for i in range(n):
@@ -115,6 +134,7 @@ def run(chk):
     quick = chk.tier == "quick"
     common.check_props_file(chk, "C09")
     common.silence_yadism()
+    exact_threshold_missing(chk)
     bad = thresholds_hq.run_thresholds_hq(chk, 60 if quick else 600)
     chk.oblige("correspondence heavy thresholds (model = every class of heavy/*_nc.py, heavy/*_cc.py)", not bad, str(bad[:2])[:500])
     bad2 = wlayer.run_combiner(chk, 120 if quick else 1500, fixed=dict(theory=dict(FNS="FFNS")), name="combiner_ffns")
